@@ -5,6 +5,7 @@ import (
 	"fmt"
 	"strings"
 	"sync"
+	"sync/atomic"
 	"time"
 
 	"github.com/tsuna/gohbase"
@@ -96,6 +97,48 @@ func gapScenario(kind string, n int, batch bool) string {
 		label = "partial-" + label
 	}
 	return fmt.Sprintf("c17 gaps %s %s %d %s %s", api, label, n, res, strings.Join(atts, ";"))
+}
+
+// lookupRateScenario: the thing a request needs keeps failing in a way that is not an answer —
+// ZooKeeper accepts the question and stays silent (each lookup attempt runs into the lookup
+// timeout), or the region's server refuses connections. The attempts the environment sees must
+// thin out along the schedule (lower bounds on the gaps), however each attempt ended.
+func lookupRateScenario(kind string) string {
+	gohbase.VerifSetSleepOverride(nil)
+	c := newSimCluster()
+	r := c.addRegion(nil, []byte("t"), nil, nil, "rs1:1")
+	_ = r
+	sc := newSimClient(c, gohbase.RegionLookupTimeout(20*time.Millisecond))
+	defer sc.cl.Close()
+	switch kind {
+	case "zk-silent":
+		atomic.StoreInt32(&c.zkSilent, 1)
+	case "server-refuses":
+		c.mu.Lock()
+		c.down["rs1:1"] = true
+		c.mu.Unlock()
+	}
+	ctx, cancel := context.WithTimeout(context.Background(), 1500*time.Millisecond)
+	defer cancel()
+	t0 := time.Now()
+	g, _ := hrpc.NewGet(ctx, []byte("t"), []byte("k"))
+	sc.cl.Get(g)
+	c.mu.Lock()
+	var ts []time.Time
+	if kind == "zk-silent" {
+		ts = append(ts, c.zkTimes...)
+	} else {
+		ts = append(ts, c.dialTimes["rs1:1"]...)
+	}
+	c.mu.Unlock()
+	var atts []string
+	for _, t := range ts {
+		atts = append(atts, fmt.Sprintf("x.%s.%d", kind, t.Sub(t0).Microseconds()))
+	}
+	if len(atts) == 0 {
+		atts = []string{"-"}
+	}
+	return fmt.Sprintf("c17 rate %s %s", kind, strings.Join(atts, ";"))
 }
 
 func init() { props["C17"] = runC17 }
@@ -209,4 +252,6 @@ func runC17(tier string, seed uint64, out *Out) {
 	for _, l := range lines {
 		out.Line("%s", l)
 	}
+	out.Line("%s", lookupRateScenario("zk-silent"))
+	out.Line("%s", lookupRateScenario("server-refuses"))
 }
